@@ -367,3 +367,10 @@ Proof. lia. Qed.
 
 Lemma deg_lt1 d : d < 1 <-> d = 0.
 Proof. lia. Qed.
+
+Lemma splits_deg_le N n a b :
+  In (a, b) (splits n) -> deg n <= N -> deg a <= N /\ deg b <= N.
+Proof. intros I H. apply splits_deg in I. lia. Qed.
+
+Lemma lt_S_le a b : a < S b <-> a <= b.
+Proof. lia. Qed.
